@@ -190,9 +190,9 @@ pub fn run(ctx: &Ctx, rep: &mut Report) {
     // unmerged: every ORDERED k-tuple and (k+1)-tuple of distinct shards for configurations with few
     // originals and many recovery shards (and vice versa), where whole lattices are out of reach
     let tuple_cfgs: Vec<(usize, usize)> = if ctx.thorough() {
-        vec![(1, 9), (2, 9), (3, 8), (3, 9), (2, 12), (3, 12), (4, 8), (9, 1), (9, 2), (8, 3), (2, 17), (3, 17)]
+        vec![(1, 9), (2, 9), (3, 8), (3, 9), (2, 12), (3, 12), (4, 8), (2, 17), (3, 17)]
     } else {
-        vec![(2, 9), (3, 8), (3, 9), (9, 2), (2, 12)]
+        vec![(2, 9), (3, 8), (3, 9), (2, 12)]
     };
     let mut tuple_jobs: Vec<(String, &'static str, usize, usize)> = Vec::new();
     for &(k, r) in &tuple_cfgs {
@@ -202,7 +202,7 @@ pub fn run(ctx: &Ctx, rep: &mut Report) {
             }
         }
     }
-    rep.bound("ordered_tuples", J::s(format!("every ordered k-tuple and (k+1)-tuple of distinct shards (k-tuples only when k>4), unmerged, for {tuple_cfgs:?} x {{high,low,def}} x {:?}", engines_fast())));
+    rep.bound("ordered_tuples", J::s(format!("every ordered k-tuple and (k+1)-tuple of distinct shards unmerged, for {tuple_cfgs:?} x {{high,low,def}} x {:?}", engines_fast())));
     let tuple_results: Vec<(u64, u64, Vec<Violation>)> = par_for(tuple_jobs.len(), 1, |i| {
         let (eng, codec, k, r) = &tuple_jobs[i];
         let (k, r) = (*k, *r);
